@@ -136,7 +136,11 @@ def finding_key(tr, rej):
         return "%s|malformed-results" % name
     why = ",".join(rej["failed_clauses"]) or ("%s:%s" % (oe.get("ev", "end"), str(oe.get("exc", "")).split(":")[0]))
     if tr["id"].endswith("/v3"):
-        name += "[clf:gamma=mean]"      # configuration class: classifier with a data-derived bandwidth
+        # configuration class: classifier with a data-derived bandwidth (the subtract_current variants share the
+        # finding of their method)
+        name = {"MonteCarloEER(subtract_current)": "MonteCarloEER(misclassification_loss)",
+                "MonteCarloEER(log_loss,subtract_current)": "MonteCarloEER(log_loss)"}.get(name, name)
+        name += "[clf:gamma=mean]"
     return "%s|%s|%s|%s" % (name, kind, oe.get("name", "-"), why)
 
 
@@ -151,6 +155,18 @@ def main(tier="quick", seed=0):
     # (exclude_non_subsample=False: with True, feature-row candidates are by design not part of the reduced
     #  training set - the recorded C20 finding - so the wrapped model legitimately sees other data)
     ENTRIES.update({e.name: e for e in zoo.wrapper_entries(mcs=(0.3, 0.5)) if "exclude_non_subsample=False" in e.name})
+    # documented options that add a term shared by all candidates of one call (subtract_current): the term must be
+    # the same however the candidates are addressed and whichever subset is asked for
+    for name, cls_name, kw, rows in (("MonteCarloEER(subtract_current)", "MonteCarloEER", {"subtract_current": True}, True),
+                                     ("MonteCarloEER(log_loss,subtract_current)", "MonteCarloEER",
+                                      {"method": "log_loss", "subtract_current": True}, True),
+                                     ("ValueOfInformationEER(subtract_current)", "ValueOfInformationEER",
+                                      {"subtract_current": True}, False)):
+        def make(seed, missing_label=np.nan, classes=(0, 1), _c=cls_name, _kw=kw):
+            import skactiveml.pool as P
+
+            return getattr(P, _c)(missing_label=missing_label, random_state=seed, **dict(_kw))
+        ENTRIES[name] = zoo.Entry(name, cls_name, make, "clf", rows=rows, samplewise=True, arbitrary_idx=False, cost=3)
     chk.model_check("MC_Addressing", "MC_Addressing.cfg")
     dev = tlc.run_tlc("MC_Addressing", "MC_Addressing_dev.cfg", timeout=600)
     if not any("ModeEquiv" in e for e in dev.errors):
